@@ -22,6 +22,7 @@ impl PartialOrd<i32> for CD { fn partial_cmp(&self, o: &i32) -> Option<std::cmp:
 impl H { fn bump(&self) -> i32 { METH.fetch_add(1, SeqCst); self.v } }
 #[derive(Debug, Clone)] struct W { h: H, c: CD, n: i32, xs: Vec<CD>, oc: Option<CD>, m: BTreeMap<String, i32>, s: String }
 #[derive(Debug, Clone)] struct P2 { a: i32, b: i32 }
+const HI5: i32 = 5;
 fn w() -> W { W { h: H { v: 5 }, c: CD(5), n: 5, xs: vec![CD(1), CD(2)], oc: Some(CD(5)), m: BTreeMap::from([("a".to_string(), 1), ("b".to_string(), 2)]), s: "hello".to_string() } }
 fn counted<F: FnOnce() + std::panic::UnwindSafe>(id: &str, f: F) {
     ROOT.store(0, SeqCst); METH.store(0, SeqCst); DBG.store(0, SeqCst);
@@ -44,6 +45,10 @@ ROOT_CASES = [
     ("range_neg_both", "i32", "-3", "(int -3)", "-5..=-1", "-2..=-1", None),
     ("range_from", "i32", "5", "(int 5)", "5..", "6..", None),
     ("range_to", "i32", "5", "(int 5)", "..=5", "..5", None),
+    # bounds that are not literals (a constant, an associated constant): the model does not interpret them (NO_MODEL: the trace
+    # predicted for them is the one of the literal range, which is what c08_root_eval_count says of every range pattern)
+    ("range_const_hi", "i32", "5", "(int 5)", "1..=HI5", "1..HI5", None),
+    ("range_assoc_const", "i32", "5", "(int 5)", "-1..=i32::MAX", "6..=i32::MAX", None),
     ("string", "String", "\"hello\".to_string()", "(str %s)" % hx("hello"), "\"hello\"", "\"x\"", None),
     ("regex", "String", "\"hello\".to_string()", "(str %s)" % hx("hello"), "=~ r\"^he\"", "=~ r\"^zz\"", None),
     ("closure", "i32", "5", "(int 5)", "|cl_x| cl_x > 3", "|cl_x| cl_x > 7", None),
@@ -66,6 +71,7 @@ ROOT_CASES = [
 ]
 # patterns applied to `W` through the method chain h.bump() (METH) and to Debug-counting fields (DBG)
 METHOD_CASES = [("simple", "5", "6"), ("eq", "== 5", "== 6"), ("gt", "> 3", "> 7"), ("range", "1..=5", "1..5"), ("closure", "|cl_x| cl_x > 3", "|cl_x| cl_x > 7"),
+                ("range_const_hi", "1..=HI5", "1..HI5"), ("range_assoc_const", "-1..=i32::MAX", "6..=i32::MAX"),
                 ("range_neg_bound", "-1..=5", "-1..5"), ("range_from", "5..", "6.."), ("range_to", "..=5", "..5"), ("ne", "!= 6", "!= 5"), ("le", "<= 5", "< 5")]
 # (passing, failing, whether the failing entry formats a value with the counting Debug impl)
 DEBUG_CASES = [("c: == 5", "c: == 6", True), ("c: > 3", "c: > 7", True), ("oc: Some(== 5)", "oc: Some(== 6)", True),
@@ -79,6 +85,8 @@ DEBUG_CASES = [("c: == 5", "c: == 6", True), ("c: > 3", "c: > 7", True), ("oc: S
                ("c.clone(): |cl_x| cl_x > 3", "c.clone(): |cl_x| cl_x > 7", True), ("xs[0]: |cl_x| cl_x > 0", "xs[0]: |cl_x| cl_x > 1", True),
                ("xs[1].clone(): |cl_x| cl_x > 1", "xs[1].clone(): |cl_x| cl_x > 2", True),
                ("c.clone(): == 5", "c.clone(): == 6", True)]
+
+NO_MODEL = {"range_const_hi": "range", "range_assoc_const": "range"}
 
 CLASS_TEXT = {
     "C08-fail-path-double-eval": "on the failing path of a leaf or of a composite whose own shape fails, the value expression spliced into "
@@ -153,8 +161,13 @@ def run(res):
     failing = 0
     dis = 0
     known_seen = set()
+    by_id = {c["id"]: m for c, m in zip(cases, mod)}
     for c, m in zip(cases, mod):
         r = real.get(c["id"])
+        if m["exec"] is None and c["kind"] in NO_MODEL:
+            # same template as the literal form of the same kind: its trace and verdict are the prediction
+            twin = by_id[c["id"].replace(c["kind"], NO_MODEL[c["kind"]])]
+            m = dict(twin)
         if r is None or m["exec"] is None:
             raise vlib.CheckError("no result for case %s (real %s, model %s)" % (c["id"], r, m["exec"]))
         c["real"], c["model"] = r, m["trace"]
